@@ -93,6 +93,31 @@ def work(job):
             if fi % 5 == 0:
                 files["src/many/empty%04d.rs" % fi] = b"// no statements here\n"
         structured = False
+    elif kind == "exact":
+        # tree-wide totals at powers of two (an 8-bit exit status, a u8 / u16 counter): per-file numbers of statements lacking a reference
+        files = {}
+        for fi, n in enumerate(payload):
+            body = "".join('    info!("e%d statement %d");\n' % (fi, k) for k in range(n))
+            files["src/exact/f%03d.rs" % fi] = ("fn f%d() {\n%s    warn!(\"[ref: %d] has one\");\n}\n" % (fi, body, 7000 + fi)).encode()
+        truth_missing = sum(payload)
+        structured = False
+    elif kind == "sameline":
+        # several statements on one source line (match arms, if/else, closures): every one has its own column
+        lines = []
+        k = 0
+        for li in range(rnd.randrange(3, 12)):
+            parts = []
+            for _ in range(rnd.choice([2, 2, 3, 5])):
+                k += 1
+                m = rnd.choice(["info", "warn", "log::error"])
+                kv = rnd.choice(["", "", "a = 1; ", "user, b = x; "])
+                ref = rnd.choice(["", "", "", "[ref: %d] " % (500 + k)])
+                pre = rnd.choice(["", "if ok { ", "Some(v) => ", "|e| ", "é = 1; ", "\t"])
+                post = rnd.choice([";", " }", ",", "; /* c */"])
+                parts.append('%s%s!(%s"%sL%d statement %d on its line")%s' % (pre, m, kv, ref, li, k, post))
+            lines.append("    " + " ".join(parts))
+        files = {"src/sameline.rs": ("fn s() {\n" + rnd.choice(["\n", "\r\n"]).join(lines) + "\n}\n").encode()}
+        structured = rnd.random() < 0.5
     elif kind == "crafted":
         from . import c17
         # (inputs carrying a reference at the top of the ID range would - correctly - make the edit run fail with "range
@@ -106,8 +131,12 @@ def work(job):
             files = {rel: (trees.mutate(d, rnd) if rnd.random() < 0.6 else d) for rel, d in files.items()}
         structured = (i % 2 == 1)
     with core.Box(tag="c05") as box:
+        # the same configuration written redundantly (an extension or a macro listed twice) means the same
+        red = rnd.random() < 0.25
         cfg = core.make_config(structured=True if structured else None, use_cache=False,
-                               macros=gen.DEFAULT_MACROS + ([("log", "debug")] if kind.startswith("corpus") else []))
+                               extensions=(rnd.choice([["rs", "rs"], ["rs", "tpl", "rs"], ["tpl", "rs", "rs", "rs"]]) if red else None),
+                               macros=gen.DEFAULT_MACROS + ([("log", "debug")] if kind.startswith("corpus") else []) + ([gen.DEFAULT_MACROS[0]] if red else []))
+        res["counters"]["redundant_configuration"] = int(red)
         amb = ambient.choose(rnd, files, p=0.3, kinds=["ro_sources", "ro_sources", "mtimes", "siblings", "mix"])
         out = lab.run_tree(built, box, files, cfg, trace=False, timeout=300, ambient=amb)
     res["counters"]["ambient_" + amb["kind"]] = 1
@@ -160,6 +189,10 @@ def main(tier):
     jobs += [(built, "genmut", ck.seed, i, None) for i in range(1500 if quick else 15000)]
     for i, (nst, nfi) in enumerate([(300, 1), (1, 300), (70, 40), (257, 3), (1100, 2)] + ([] if quick else [(4000, 1), (2, 3000), (66000 // 64, 64)])):
         jobs.append((built, "counts", ck.seed, i, (nst, nfi)))
+    for i, per_file in enumerate([(100, 100, 56), (256,), (255, 1), (128, 128, 128, 128), (512,), (1, 254, 1), (1024,)] + ([] if quick else [(4096,), (2048, 2048)])):
+        jobs.append((built, "exact", ck.seed, i, per_file))
+    for i in range(200 if quick else 3000):
+        jobs.append((built, "sameline", ck.seed, i, None))
     for i in range(6):
         jobs.append((built, "crafted", ck.seed, i, i % 3))
     shards, reg = trees.corpus_shards(rnd, 16, registry_n=0 if quick else 1500)
